@@ -14,10 +14,10 @@ Variable pvis : Z -> Z.
 Hypothesis HW : 1 <= W.
 (* attributes that has_style ignores do not render on a blank *)
 Hypothesis Hpv : forall a, ahs tb a = false -> pvis (apen tb a) = pvis 0.
-(* the Screen default style "[transparent]" has no visible attribute *)
-Hypothesis Htr : ahs tb (sattr tb 1) = false.
 
-Definition cpen (c : cell) : Z := apen tb (sattr tb (st c)).
+(* the pen a screen cell is displayed with: a blank in the default style
+   "[transparent]" is an untouched cell, shown in the default attributes *)
+Definition cpen (c : cell) : Z := if is_transp c then 0 else apen tb (sattr tb (st c)).
 
 (* terminal cell [tc] displays screen cell [c] (modulo attributes invisible on a blank) *)
 Definition shows (tc : tcell) (c : cell) : Prop :=
@@ -47,7 +47,7 @@ Lemma shows_same : forall tc a b, differs a b = false -> shows tc b -> shows tc 
 Proof.
   intros tc a b D (K & G & P). unfold differs in D. apply orb_false_iff in D. destruct D as [D1 D2].
   apply negb_false_iff in D1. apply negb_false_iff in D2. apply str_eqb_eq in D1. apply Z.eqb_eq in D2.
-  unfold shows, cpen in *. rewrite D1, D2. auto.
+  unfold shows, cpen, is_transp in *. rewrite D1, D2. auto.
 Qed.
 
 (* ---- get_max_column_index ---- *)
@@ -58,41 +58,51 @@ Proof.
   destruct (counts tb (snd e)); [specialize (IH (Z.max m (fst e))); lia | apply IH].
 Qed.
 
+(* a cell that shows as a blank in (visibly) default attributes *)
+Definition blankish (c : cell) : Prop := ch c = [32] /\ pvis (cpen c) = pvis 0.
+
+Lemma notcounts_blankish : forall c, counts tb c = false -> blankish c.
+Proof.
+  intros c C. unfold counts in C. apply orb_false_iff in C. destruct C as [C1 C2].
+  apply negb_false_iff in C1. split; [apply str_eqb_eq; exact C1|].
+  unfold cpen. destruct (is_transp c); [reflexivity|apply Hpv; exact C2].
+Qed.
+
+Lemma blankish_dcell : blankish dcell.
+Proof. split; reflexivity. Qed.
+
+(* get_max_column_index looks at explicit cells only: beyond it, a cell is
+   either explicit and not counting, or absent (the default char) *)
 Lemma gmax_fold_spec : forall r m x,
   fold_left (fun m e => if counts tb (snd e) then Z.max m (fst e) else m) r m < x ->
-  counts tb (rget r x) = false.
+  blankish (rget r x).
 Proof.
   induction r as [|[i v] r IH]; intros m x H; cbn [fold_left rget fst snd] in *.
-  - unfold counts, dcell; cbn [ch st]. rewrite str_eqb_refl, Htr. reflexivity.
+  - apply blankish_dcell.
   - destruct (i =? x) eqn:E.
-    + apply Z.eqb_eq in E; subst i. destruct (counts tb v) eqn:C; [|reflexivity].
+    + apply Z.eqb_eq in E; subst i. destruct (counts tb v) eqn:C; [|apply notcounts_blankish; exact C].
       pose proof (gmax_fold_ge r (Z.max m x)). lia.
     + eapply IH; eauto.
 Qed.
 
-Lemma gmax_spec : forall r x, gmax tb r < x -> counts tb (rget r x) = false.
+Lemma gmax_spec : forall r x, gmax tb r < x -> blankish (rget r x).
 Proof. intros. eapply gmax_fold_spec; eauto. Qed.
 
 Lemma gmax_nonneg : forall r, 0 <= gmax tb r.
 Proof. intros; apply gmax_fold_ge. Qed.
 
-Lemma notcounts_shows_blank : forall c p, counts tb c = false -> pvis p = pvis 0 -> shows (blank p) c.
+Lemma notcounts_shows_blank : forall c p, blankish c -> pvis p = pvis 0 -> shows (blank p) c.
 Proof.
-  intros c p C P. unfold counts in C. apply orb_false_iff in C. destruct C as [C1 C2].
-  apply negb_false_iff in C1. pose proof (str_eqb_eq _ _ C1) as E.
-  unfold shows, blank; cbn [tk tg tp]. rewrite C1. repeat split; auto.
-  unfold cpen. rewrite (Hpv _ C2). exact P.
+  intros c p (E & Q) P. unfold shows, blank; cbn [tk tg tp]. rewrite E, str_eqb_refl.
+  split; [reflexivity|]. split; [reflexivity|]. congruence.
 Qed.
 
 Lemma notcounts_shows_transfer : forall tc a b,
-  counts tb a = false -> counts tb b = false -> shows tc b -> shows tc a.
+  blankish a -> blankish b -> shows tc b -> shows tc a.
 Proof.
-  intros tc a b Ca Cb (K & G & P). unfold counts in *.
-  apply orb_false_iff in Ca. apply orb_false_iff in Cb. destruct Ca as [A1 A2], Cb as [B1 B2].
-  apply negb_false_iff in A1. apply negb_false_iff in B1.
-  pose proof (str_eqb_eq _ _ A1) as EA. pose proof (str_eqb_eq _ _ B1) as EB.
-  unfold shows, cpen in *. rewrite B1 in P. rewrite A1. repeat split; auto; try congruence.
-  rewrite P, (Hpv _ A2), (Hpv _ B2). reflexivity.
+  intros tc a b (Ea & Qa) (Eb & Qb) (K & G & P). unfold shows in *.
+  rewrite Eb, str_eqb_refl in P. rewrite Ea, str_eqb_refl.
+  split; [exact K|]. split; [congruence|]. congruence.
 Qed.
 
 (* ---- invariants of the diff loop ---- *)
@@ -205,9 +215,11 @@ Lemma output_char_ok : forall t c y ls nc ls' ks,
   Inv t (c, y) ls -> 0 <= c <= W - 1 -> ncell nc -> tk (tgrid t y c) = 0 ->
   output_char tb ls nc = (ls', ks) ->
   Inv (trun W t ks) (c + 1, y) ls' /\ cvis (trun W t ks) = cvis t /\ undef (trun W t ks) = undef t /\
-  tgrid (trun W t ks) = upd (tgrid t) y c (mkcell (ch nc) (cpen nc) 0).
+  tgrid (trun W t ks) = upd (tgrid t) y c (mkcell (ch nc) (apen tb (sattr tb (st nc))) 0).
 Proof.
   intros t c y ls nc ls' ks ((Cy & Cx & Cp & Cxr & Cyr) & PO & AW) Hc (Hw & Hg) Hk O.
+  set (cpen := fun c : cell => apen tb (sattr tb (st c))).
+  change (apen tb (sattr tb (st nc))) with (cpen nc).
   cbn [fst snd] in *. assert (CX : cx t = c) by lia.
   unfold output_char in O. rewrite Hw in O.
   assert (FIN : forall t0, pend t0 = false -> aw t0 = false -> cx t0 = c -> cy t0 = y ->
@@ -235,6 +247,36 @@ Proof.
       apply orb_false_iff in SET. destruct SET as [_ S2].
       destruct ls as [s|]; [|discriminate]. apply negb_false_iff in S2. apply Z.eqb_eq in S2.
       unfold PenOK, cpen in *. congruence.
+Qed.
+
+(* drawing one cell: output_char, or the blank-in-default-attributes branch *)
+Lemma draw_cell_ok : forall t c y ls nc ls' ks,
+  Inv t (c, y) ls -> 0 <= c <= W - 1 -> ncell nc -> tk (tgrid t y c) = 0 ->
+  (if is_transp nc then (@None Z, [TSGR 0; TText [32] 1]) else output_char tb ls nc) = (ls', ks) ->
+  Inv (trun W t ks) (c + 1, y) ls' /\ cvis (trun W t ks) = cvis t /\ undef (trun W t ks) = undef t /\
+  tgrid (trun W t ks) = upd (tgrid t) y c (mkcell (ch nc) (cpen nc) 0).
+Proof.
+  intros t c y ls nc ls' ks HI Hc Hn Hk O.
+  destruct (is_transp nc) eqn:T.
+  - inversion O; subst ls' ks; clear O.
+    destruct HI as ((Cy & Cx & Cp & Cxr & Cyr) & PO & AW). cbn [fst snd] in *.
+    assert (CX : cx t = c) by lia.
+    unfold is_transp in T. apply andb_true_iff in T. destruct T as [T1 T2].
+    pose proof (str_eqb_eq _ _ T1) as E.
+    cbn [trun fold_left]. set (t0 := tstep W t (TSGR 0)).
+    destruct (put_narrow t0 [32] ltac:(discriminate) Cp AW) as (G & X & Y & N & A & P & V & U).
+    { subst t0; cbn [tstep tgrid cx cy]. rewrite CX, Cy. exact Hk. }
+    split; [|split; [|split]].
+    + split; [|split]; [|exact I|exact A].
+      unfold CurOK; cbn [fst snd]. split; [rewrite Y; subst t0; cbn [tstep cy]; exact Cy|].
+      split; [rewrite X; subst t0; cbn [tstep cx]; lia|]. split; [exact P|]. lia.
+    + rewrite V. reflexivity.
+    + rewrite U. reflexivity.
+    + rewrite G. subst t0; cbn [tstep tgrid cx cy pen]. rewrite CX, Cy, E.
+      unfold cpen, is_transp. rewrite E, str_eqb_refl, T2. reflexivity.
+  - destruct (output_char_ok t c y ls nc ls' ks HI Hc Hn Hk O) as (I2 & V2 & U2 & G2).
+    split; [exact I2|]. split; [exact V2|]. split; [exact U2|].
+    rewrite G2. unfold cpen. rewrite T. reflexivity.
 Qed.
 
 Lemma upd_other : forall g y x v y' x', (y' <> y \/ x' <> x) -> upd g y x v y' x' = g y' x'.
@@ -270,7 +312,8 @@ Proof.
       destruct (differs (rget nr c) (rget pr c)) eqn:D.
       * destruct pos as [px py].
         destruct (move_cursor W (px, py) ls (c, y)) as [ls1 k1] eqn:M.
-        destruct (output_char tb ls1 (rget nr c)) as [ls2 k3] eqn:O.
+        destruct (if is_transp (rget nr c) then (@None Z, [TSGR 0; TText [32] 1])
+                  else output_char tb ls1 (rget nr c)) as [ls2 k3] eqn:O.
         destruct (cols f tb W y nr pr zw nmax (c + 1) (c + 1, y) ls2) as [[p2 l2] k4] eqn:C2.
         inversion C; subst pos' ls' ks; clear C.
         rewrite !trun_app.
@@ -280,7 +323,7 @@ Proof.
           by (destruct (zget zw y c); reflexivity).
         rewrite Z1.
         assert (K1 : tk (tgrid t1 y c) = 0) by (rewrite G1; apply (HS c); lia).
-        destruct (output_char_ok t1 c y ls1 (rget nr c) ls2 k3 I1 ltac:(lia) (conj Hw Hg) K1 O)
+        destruct (draw_cell_ok t1 c y ls1 (rget nr c) ls2 k3 I1 ltac:(lia) (conj Hw Hg) K1 O)
           as (I2 & V2 & U2 & G2).
         set (t2 := trun W t1 k3) in *.
         assert (HS2 : forall x, c + 1 <= x <= nmax -> shows (tgrid t2 y x) (rget pr x)).
@@ -407,8 +450,7 @@ Definition Shows (t : term) (s : screen) : Prop :=
 
 Lemma shows_blank_dcell : shows (blank 0) dcell.
 Proof.
-  apply notcounts_shows_blank; [|reflexivity].
-  unfold counts, dcell; cbn [ch st]. rewrite str_eqb_refl, Htr. reflexivity.
+  apply notcounts_shows_blank; [apply blankish_dcell|reflexivity].
 Qed.
 
 Lemma scell_beyond : forall H s y x, wf_screen H s -> sh s <= y -> scell s y x = dcell.
